@@ -115,9 +115,17 @@ def build_driver(scratch, name, race=False):
     env = dict(os.environ)
     env.update(GOENV)
     hdir = os.path.join(ROOT, "harness")
+    repo = os.environ.get("VERIF_REPO", "/repo")
+    if repo != "/repo":
+        # build against another tree (a scratch worktree with a candidate change): private copy of the harness
+        hdir = os.path.join(scratch, "harness")
+        if not os.path.isdir(hdir):
+            shutil.copytree(os.path.join(ROOT, "harness"), hdir)
+            gm = open(os.path.join(hdir, "go.mod")).read().replace("=> /repo", "=> " + repo)
+            open(os.path.join(hdir, "go.mod"), "w").write(gm)
     # go.sum follows the repository's
     try:
-        shutil.copy("/repo/go.sum", os.path.join(hdir, "go.sum"))
+        shutil.copy(os.path.join(repo, "go.sum"), os.path.join(hdir, "go.sum"))
     except OSError:
         pass
     cmd = ["go", "build", "-tags", "leveldb verif", "-ldflags=-checklinkname=0"]
